@@ -65,6 +65,16 @@ class AxisOperationBase(OperableAxis, ABC):
         pass
 
 
+def _const_str(value: int) -> str:
+    """Print an integer constant; the shape string grammar has no negative literals, so -n is written (0-n)."""
+    return f"(0-{-value})" if value < 0 else str(value)
+
+
+def _axis_str(axis: object) -> str:
+    """Print an axis, plain integers like any other integer constant."""
+    return _const_str(axis) if isinstance(axis, int) else str(axis)
+
+
 def _as_operand(axis: Group | OperableAxis | ComputedAxis | int) -> Group | OperableAxis | ComputedAxis:
     """Operands are operable axes or plain integers, arithmetic on constant or anonymous axes is not defined."""
     if isinstance(axis, OperableAxis | ComputedAxis | Group):
@@ -95,7 +105,7 @@ class Group(UnaryAxisOperationBase):
         self._operators = grouped_op
 
     def __str__(self) -> str:
-        return f"({self._operators})"
+        return f"({_axis_str(self._operators)})"
 
 
 class BinaryAxisOperationBase(AxisOperationBase):
@@ -130,7 +140,7 @@ class Add(BinaryAxisOperationBase):
 
     def __str__(self) -> str:
         if isinstance(self._lhs, LiteralAxis) and isinstance(self._rhs, LiteralAxis):
-            return f"{self._lhs.value + self._rhs.value}"
+            return _const_str(self._lhs.value + self._rhs.value)
         return f"{self._operand_str(self._lhs, is_rhs=False)}+{self._operand_str(self._rhs, is_rhs=True)}"
 
 
@@ -139,7 +149,7 @@ class Subtract(BinaryAxisOperationBase):
 
     def __str__(self) -> str:
         if isinstance(self._lhs, LiteralAxis) and isinstance(self._rhs, LiteralAxis):
-            return f"{self._lhs.value - self._rhs.value}"
+            return _const_str(self._lhs.value - self._rhs.value)
         return f"{self._operand_str(self._lhs, is_rhs=False)}-{self._operand_str(self._rhs, is_rhs=True)}"
 
 
@@ -148,7 +158,7 @@ class Divide(BinaryAxisOperationBase):
 
     def __str__(self) -> str:
         if isinstance(self._lhs, LiteralAxis) and isinstance(self._rhs, LiteralAxis):
-            return f"{self._lhs.value // self._rhs.value}"
+            return _const_str(self._lhs.value // self._rhs.value)
         return f"{self._operand_str(self._lhs, is_rhs=False)}/{self._operand_str(self._rhs, is_rhs=True)}"
 
 
@@ -157,7 +167,7 @@ class Multiply(BinaryAxisOperationBase):
 
     def __str__(self) -> str:
         if isinstance(self._lhs, LiteralAxis) and isinstance(self._rhs, LiteralAxis):
-            return f"{self._lhs.value * self._rhs.value}"
+            return _const_str(self._lhs.value * self._rhs.value)
         return f"{self._operand_str(self._lhs, is_rhs=False)}*{self._operand_str(self._rhs, is_rhs=True)}"
 
 
@@ -166,21 +176,21 @@ class Exp(BinaryAxisOperationBase):
 
     def __str__(self) -> str:
         if isinstance(self._lhs, LiteralAxis) and isinstance(self._rhs, LiteralAxis):
-            return f"{self._lhs.value**self._rhs.value}"
+            return _const_str(self._lhs.value**self._rhs.value)
         return f"{self._operand_str(self._lhs, is_rhs=False)}^{self._operand_str(self._rhs, is_rhs=True)}"
 
 
 class Max(BinaryAxisOperationBase):
     def __str__(self) -> str:
         if isinstance(self._lhs, LiteralAxis) and isinstance(self._rhs, LiteralAxis):
-            return f"{max(self._lhs.value, self._rhs.value)}"
+            return _const_str(max(self._lhs.value, self._rhs.value))
         return f"max({self._lhs},{self._rhs})"
 
 
 class Min(BinaryAxisOperationBase):
     def __str__(self) -> str:
         if isinstance(self._lhs, LiteralAxis) and isinstance(self._rhs, LiteralAxis):
-            return f"{min(self._lhs.value, self._rhs.value)}"
+            return _const_str(min(self._lhs.value, self._rhs.value))
         return f"min({self._lhs},{self._rhs})"
 
 
@@ -194,7 +204,7 @@ class LiteralAxis(OperableAxis):
         return self._value
 
     def __str__(self) -> str:
-        return str(self._value)
+        return _const_str(self._value)
 
 
 class VariableAxis(OperableAxis):
@@ -278,7 +288,7 @@ class Shape:
         ]
 
     def __str__(self) -> str:
-        return " ".join(map(str, self._raveled_expressions))
+        return " ".join(map(_axis_str, self._raveled_expressions))
 
     def __repr__(self) -> str:
         return self.__str__()
